@@ -243,7 +243,7 @@ func c17Roots() []func() any {
 var c17Steps = []string{".k", ".missing", "[0]", "[1]", "[5]", "[-1]", ".0", ".1", "['k']", "[\"k\"]", ".Name", ".name", ".secret", ".hid", ".x", ".X", ".Y", ".inner", ".Inner", ".pinner", ".PInner",
 	".l", ".l[2].z", ".one", ".items", ".Items[0]", " .k ", "..k", "[", "[]", "[ 0 ]", ".s", ".nil", ".Meta.a", ".tag_only", ".Title", ".n", ".a",
 	".Created", ".created", ".ID", ".Base", ".Base.Created", ".Base.ID", ".note", ".title", ".art.Created", ".art.ID", ".art.Base.ID", ".list[0].Created", ".p5.Created", ".n5.Created", ".n5.Title", ".art.created", ".n5.created", ".p5.created", ".n5.ID", ".n5.Base", ".n5.Base.Created", ".n5.note", ".list[0].created",
-	".2024", "['2024']", "[2024]", "[\"2024\"]", ".404[0]", "['404'][1]", ".404.1", ".ok[0]", ".7.1", "[7][1]", ".10", "[10]", ".2025", ".-1", "['-1']"}
+	"[-3]", "[-100]", ".l[-1]", ".l[-9]", ".items[-1]", ".Items[-2]", ".2024", "['2024']", "[2024]", "[\"2024\"]", ".404[0]", "['404'][1]", ".404.1", ".ok[0]", ".7.1", "[7][1]", ".10", "[10]", ".2025", ".-1", "['-1']"}
 
 func c17Values(r *Run) any {
 	vals := []any{nil, true, false, 0, 1, "", "str", int8(0), uint16(3), 1.5, []any{1, "x"}, map[string]any{"k": "v2"}, S2{3, "set"}, &S2{8, "pset"}, []int{}, map[string]string{}}
